@@ -310,6 +310,9 @@ class SideA:
         return [[v[i] for i in idxs] for idxs in self.mem_idx]
 
 
+REGULAR_COMB = True      # False: the per-target comb emitter (`regular_comb=False`, what litex.build.sim.verilator converts with); set per configuration
+
+
 class ConvertError(Exception):
     """litex.gen.fhdl.verilog.convert itself raised on a design that LiteX elaborates and simulates"""
 
@@ -321,7 +324,7 @@ class SideB:
         info = self.info
         with golden(patches):
             try:
-                out = lx_verilog.convert(self.mod, ios=set(info["ios"]), name="top")
+                out = lx_verilog.convert(self.mod, ios=set(info["ios"]), name="top", regular_comb=REGULAR_COMB)
             except Exception as e:
                 raise ConvertError(f"{type(e).__name__}: {e}")
         self.out = out
